@@ -1,6 +1,9 @@
 import P2sh.Spec.FilterSpec
+import P2sh.Model.FilterOut
 import P2sh.Driver.Sexp
-/-! Driver for op `filter` (C20): FilterSpec over (program AST, packet header numbers). -/
+import P2sh.Driver.PcapDrv
+/-! Driver for op `filter` (C20): FilterSpec over (program AST, packet header numbers);
+op `filterout` (C20, byte level): `FilterOut.filterOutput` over (input bytes, selection). -/
 namespace P2sh.Driver.FilterDrv
 open P2sh P2sh.Driver P2sh.FilterSpec
 
@@ -30,6 +33,19 @@ def run (line : String) : String :=
         let selS := if skip then "" else joinWith "," (sel.map toString)
         result "MODEL-SKIP" s!"m sel={selS} hdr=t out={hexStr stdoutText} err={hexStr stderrText}"
     | _, _ => result "MODEL-SKIP" "any"
+  | _ => "bad-op"
+
+/-- `filterout <hex of the input stream> <selected numbers, comma separated, or ->`: the bytes
+`Model/FilterOut.lean` says filter mode writes (hex; `-` when nothing) -/
+def runOut (line : String) : String :=
+  match words line with
+  | [_, hx, selS] =>
+    let sel := if selS == "-" then some [] else (selS.splitOn ",").mapM String.toNat?
+    match PcapDrv.unhexBytes hx, sel with
+    | some input, some sel =>
+      let out := FilterOut.filterOutput input sel
+      result (if out.isEmpty then "-" else PcapDrv.hexOf out) "any"
+    | _, _ => "bad-op"
   | _ => "bad-op"
 
 end P2sh.Driver.FilterDrv
